@@ -168,7 +168,14 @@ func pick[T any](r *rand.Rand, xs []T) T { return xs[r.Intn(len(xs))] }
 // concrete returns distinct concrete values for the ids "a" and "b".
 func concrete(r *rand.Rand, id string) obj.Value {
 	tag := obj.Name("Tag" + strings.ToUpper(id))
-	switch r.Intn(6) {
+	switch r.Intn(7) {
+	case 6:
+		// scalars that are not self-delimiting (object streams separate their
+		// members by white space only)
+		if id == "a" {
+			return obj.Name("ScalarA")
+		}
+		return obj.Real{F: 7.25}
 	case 0:
 		return obj.Array{tag, obj.Int(r.Int63n(1<<40) - (1 << 39)), obj.Str(pick(r, stringPool))}
 	case 1:
